@@ -42,7 +42,8 @@ CLAIMED = {
               "Exactly one thread runs at a time; every instrumented memory access, atomic and mutex operation is a scheduling point, so a "
               "preemption between a load and a store is expressible without editing libocca. Schedules come from a traced dry run (stop A "
               "at its access to X, run B past its access to X) and from random preemption points; oracles are outcome based: heap checker "
-              "(double free, use after free, out of block), crashes, and after the join handle states, contents, live-object counts and "
+              "(double free, use after free, out of block), lock discipline (unlock of a mutex held by another thread or by nobody), crashes, "
+              "and after the join handle states, contents, live-object counts and "
               "memoryAllocated() against the sequential reference model. Failures are minimised to 1-3 context switches and replayed exactly."),
         note=("Preemption only inside instrumented libocca code (out-of-line libstdc++/libc code is atomic). Each thread uses its own handle "
               "variables. maxMemoryAllocated() is not judged. Sampling of schedules, not enumeration."),
@@ -142,7 +143,9 @@ CLAIMED = {
         text=("2-16 real OCCA processes build the same kernels against one cache under a simulator that runs exactly one of them at a "
               "time and chooses, from the seed, who executes its next file-system system call; every process must succeed with the "
               "model's output and a follow-up process must reuse the cache without compiling; in a quarter of the scenarios some (never all) "
-              "of the processes are killed mid-build and only the survivors and the follow-up are judged. Seeded search over schedules; failures "
+              "of the processes are killed mid-build and only the survivors and the follow-up are judged, and in a fifth the processes are "
+              "workers fork()ed from a parent that has already built a kernel (they inherit its in-process state and are scheduled as "
+              "virtual processes of their own). Seeded search over schedules; failures "
               "are minimised to a few context switches and replayed exactly."),
         note=("Interleaving granularity = system calls on paths under the simulated tree. Clock, entropy and compiler are simulated "
               "(LD_PRELOAD shim, stub compiler with memoised real g++ output). Sampling, not enumeration."),
